@@ -119,6 +119,8 @@ def run_cases(binary, cases, timeout=600, env=None, per_case_timeout=None, tag="
                     done += 1
                     begun = None
         start += done
+        results["_stderr"] = results.get("_stderr", "") + err
+        results["_rc"] = rc
         if start >= len(cases):
             break
         # the process ended before finishing all cases
